@@ -360,82 +360,100 @@ package sftp
 //@   requires ctx != nil
 
 //@ func (*Client).opendir
-//@   property C20, C03
+//@   assert before call (*clientConn).sendPacket#1: typeis(arg3, *sshFxpOpendirPacket) && arg3.(*sshFxpOpendirPacket).ID == id && arg3.(*sshFxpOpendirPacket).Path == path
+//@   property C20, C03, C05
 //@   requires connOK(c)
 //@   requires ctx != nil
 
 //@ func (*Client).Lstat
+//@   assert before call (*clientConn).sendPacket#1: typeis(arg3, *sshFxpLstatPacket) && arg3.(*sshFxpLstatPacket).ID == id && arg3.(*sshFxpLstatPacket).Path == p
 //@   results fi, err
 //@   ensures err == nil ==> fi != nil
-//@   property C20, C03
+//@   property C20, C03, C05
 //@   requires connOK(c)
 
 //@ func (*Client).ReadLink
-//@   property C20, C03
+//@   assert before call (*clientConn).sendPacket#1: typeis(arg3, *sshFxpReadlinkPacket) && arg3.(*sshFxpReadlinkPacket).ID == id && arg3.(*sshFxpReadlinkPacket).Path == p
+//@   property C20, C03, C05
 //@   requires connOK(c)
 
 //@ func (*Client).Link
-//@   property C20, C03
+//@   assert before call (*clientConn).sendPacket#1: typeis(arg3, *sshFxpHardlinkPacket) && arg3.(*sshFxpHardlinkPacket).ID == id && arg3.(*sshFxpHardlinkPacket).Oldpath == oldname && arg3.(*sshFxpHardlinkPacket).Newpath == newname
+//@   property C20, C03, C05
 //@   requires connOK(c)
 
 //@ func (*Client).Symlink
-//@   property C20, C03
+//@   assert before call (*clientConn).sendPacket#1: typeis(arg3, *sshFxpSymlinkPacket) && arg3.(*sshFxpSymlinkPacket).ID == id && arg3.(*sshFxpSymlinkPacket).Linkpath == newname && arg3.(*sshFxpSymlinkPacket).Targetpath == oldname
+//@   property C20, C03, C05
 //@   requires connOK(c)
 
 //@ func (*Client).fsetstat
-//@   property C20, C03
+//@   assert before call (*clientConn).sendPacket#1: typeis(arg3, *sshFxpFsetstatPacket) && arg3.(*sshFxpFsetstatPacket).ID == id && arg3.(*sshFxpFsetstatPacket).Handle == handle && arg3.(*sshFxpFsetstatPacket).Flags == flags && arg3.(*sshFxpFsetstatPacket).Attrs == attrs
+//@   property C20, C03, C05
 //@   requires connOK(c)
 
 //@ func (*Client).setstat
-//@   property C20, C03
+//@   assert before call (*clientConn).sendPacket#1: typeis(arg3, *sshFxpSetstatPacket) && arg3.(*sshFxpSetstatPacket).ID == id && arg3.(*sshFxpSetstatPacket).Path == path && arg3.(*sshFxpSetstatPacket).Flags == flags && arg3.(*sshFxpSetstatPacket).Attrs == attrs
+//@   property C20, C03, C05
 //@   requires connOK(c)
 
 //@ func (*Client).open
-//@   property C20, C03
+//@   assert before call (*clientConn).sendPacket#1: typeis(arg3, *sshFxpOpenPacket) && arg3.(*sshFxpOpenPacket).ID == id && arg3.(*sshFxpOpenPacket).Path == path && arg3.(*sshFxpOpenPacket).Pflags == pflags
+//@   property C20, C03, C05
 //@   requires connOK(c)
 
 //@ func (*Client).close
-//@   property C20, C03
+//@   assert before call (*clientConn).sendPacket#1: typeis(arg3, *sshFxpClosePacket) && arg3.(*sshFxpClosePacket).ID == id && arg3.(*sshFxpClosePacket).Handle == handle
+//@   property C20, C03, C05
 //@   requires connOK(c)
 
 //@ func (*Client).stat
+//@   assert before call (*clientConn).sendPacket#1: typeis(arg3, *sshFxpStatPacket) && arg3.(*sshFxpStatPacket).ID == id && arg3.(*sshFxpStatPacket).Path == path
 //@   results fs, err
 //@   ensures err == nil ==> fs != nil
-//@   property C20, C03
+//@   property C20, C03, C05
 //@   requires connOK(c)
 
 //@ func (*Client).fstat
+//@   assert before call (*clientConn).sendPacket#1: typeis(arg3, *sshFxpFstatPacket) && arg3.(*sshFxpFstatPacket).ID == id && arg3.(*sshFxpFstatPacket).Handle == handle
 //@   results fs, err
 //@   ensures err == nil ==> fs != nil
-//@   property C20, C03
+//@   property C20, C03, C05
 //@   requires connOK(c)
 
 //@ func (*Client).StatVFS
-//@   property C20, C03
+//@   assert before call (*clientConn).sendPacket#1: typeis(arg3, *sshFxpStatvfsPacket) && arg3.(*sshFxpStatvfsPacket).ID == id && arg3.(*sshFxpStatvfsPacket).Path == path
+//@   property C20, C03, C05
 //@   requires connOK(c)
 
 //@ func (*Client).removeFile
-//@   property C20, C03
+//@   assert before call (*clientConn).sendPacket#1: typeis(arg3, *sshFxpRemovePacket) && arg3.(*sshFxpRemovePacket).ID == id && arg3.(*sshFxpRemovePacket).Filename == path
+//@   property C20, C03, C05
 //@   requires connOK(c)
 
 //@ func (*Client).RemoveDirectory
-//@   property C20, C03
+//@   assert before call (*clientConn).sendPacket#1: typeis(arg3, *sshFxpRmdirPacket) && arg3.(*sshFxpRmdirPacket).ID == id && arg3.(*sshFxpRmdirPacket).Path == path
+//@   property C20, C03, C05
 //@   requires connOK(c)
 
 //@ func (*Client).Rename
-//@   property C20, C03
+//@   assert before call (*clientConn).sendPacket#1: typeis(arg3, *sshFxpRenamePacket) && arg3.(*sshFxpRenamePacket).ID == id && arg3.(*sshFxpRenamePacket).Oldpath == oldname && arg3.(*sshFxpRenamePacket).Newpath == newname
+//@   property C20, C03, C05
 //@   requires connOK(c)
 
 //@ func (*Client).PosixRename
-//@   property C20, C03
+//@   assert before call (*clientConn).sendPacket#1: typeis(arg3, *sshFxpPosixRenamePacket) && arg3.(*sshFxpPosixRenamePacket).ID == id && arg3.(*sshFxpPosixRenamePacket).Oldpath == oldname && arg3.(*sshFxpPosixRenamePacket).Newpath == newname
+//@   property C20, C03, C05
 //@   requires connOK(c)
 
 //@ func (*Client).RealPath
-//@   property C20, C03
+//@   assert before call (*clientConn).sendPacket#1: typeis(arg3, *sshFxpRealpathPacket) && arg3.(*sshFxpRealpathPacket).ID == id && arg3.(*sshFxpRealpathPacket).Path == path
+//@   property C20, C03, C05
 //@   requires connOK(c)
 
 //@ func (*Client).Mkdir
-//@   property C20, C03
+//@   assert before call (*clientConn).sendPacket#1: typeis(arg3, *sshFxpMkdirPacket) && arg3.(*sshFxpMkdirPacket).ID == id && arg3.(*sshFxpMkdirPacket).Path == path
+//@   property C20, C03, C05
 //@   requires connOK(c)
 
 //@ ghost var hsVersion uint32
@@ -2187,3 +2205,6 @@ package sftp
 //@   assert before call sshfx.(FileMode).String#1: uint32(arg0) == fromFileMode(os.FileMode(ghost.lsMode))
 // (the permission column of the long name is rendered from the entry's complete mode word -- type, permission and
 //  setuid / setgid / sticky bits -- converted by the same fromFileMode as the structured attributes)
+
+// (C05 / C03: every single-request operation of the Client sends the request type that belongs to it, with the id it
+//  just allocated and its own arguments in the fields the server reads them from)
